@@ -145,6 +145,22 @@ Verdict propFsg(Choices &c, Ctx &ctx) {
     a.logp = toLog(a.p);
     gen.push_back(a);
   }
+  // dense null graphs: (nearly) every ordered pair of states already has a direct null arc, each with its own
+  // probability, so that the closure has nothing to create and everything to improve
+  if (nstate >= 3 && c.coin(18)) {
+    ctx.label("dense-null-graph");
+    for (int i = 0; i < nstate; ++i)
+      for (int j = 0; j < nstate; ++j) {
+        if (i == j || c.coin(12)) continue;
+        GenArc a;
+        a.from = i;
+        a.to = j;
+        a.label = "";
+        a.p = (double)c.range(1, 999) / 1000.0;
+        a.logp = toLog(a.p);
+        gen.push_back(a);
+      }
+  }
   std::ostringstream d;
   d << "states=" << nstate << " start=" << start << " final=" << fin << " lw=" << lw << " arcs:";
   for (auto &a : gen) d << " " << a.from << ">" << a.to << ":" << (a.label.empty() ? "-" : a.label) << "/" << a.p;
